@@ -5,7 +5,7 @@ of the field), the exact Fraction-based IEEE-754 RNE encoder for floats (applied
 the active CHARSET for strings, recursive expansion for DUP / [n], and the PADDING rule.  Micro-cases are batched;
 layout cases (reservations, padding, address advance) are single programs whose whole byte map is compared.
 """
-import itertools, math, struct
+import itertools, math, struct, re
 from fractions import Fraction
 from .. import core, micro
 from ..fmt import ieee, pfile
@@ -397,6 +397,7 @@ def subspaces(tier):
     subs.append(('e:reservation-padding-layout', list(layout_cases())))
     subs.append(('f:packed-strings-per-argument', from_groups(packed_items())))
     subs.append(('g:sub-unit-reservations', list(resv_cases())))
+    subs.append(('g:sized-reservations', list(resvn_cases())))
     return subs
 
 
@@ -435,6 +436,47 @@ def resv_cases():
     for cpu, kw, per, pre, prelen in (('atmega8', 'db', 2, 'nop', 1), ('8086', 'dn', 2, 'db 55h', 1), ('8086', 'db', 1, 'db 55h', 1), ('z80', 'dn', 2, 'db 55h', 1)):
         for t in seen:
             yield {'k': 'resv', 'cpu': cpu, 'kw': kw, 'per': per, 'pre': pre, 'prelen': prelen, 'tree': t}
+
+
+RESN = [('8080', 'ds', 1), ('z80', 'ds', 1), ('8051', 'ds', 1), ('8086', 'ds', 1), ('6502', 'dfs', 1), ('6800', 'rmb', 1), ('6809', 'rmb', 1), ('68000', 'ds.b', 1),
+        ('68000', 'ds.w', 2), ('68000', 'ds.l', 4), ('h8/300', 'ds.b', 1), ('st7', 'ds.b', 1), ('sh7000', 'ds.b', 1), ('68hc12', 'ds.b', 1), ('atmega8', 'res', 1),
+        ('msp430', 'bss', 1), ('320c25', 'bss', 1), ('8048', 'ds', 1), ('z8601', 'ds', 1), ('1802', 'ds', 1), ('m16c', 'ds.b', 1), ('80c166', 'ds', 1), ('z180', 'ds', 1)]
+
+
+def resvn_cases():
+    """reservations with an explicit size: the address advances by size x unit; a negative size is rejected (it would move the
+    address back over code already written)"""
+    for cpu, kw, unit in RESN:
+        for n in (1, 2, 5, 100, -1, -2, -100):
+            yield {'k': 'resvn', 'cpu': cpu, 'kw': kw, 'unit': unit, 'n': n}
+
+
+def ev_resvn(case):
+    start = 0x40
+    lines = ['\tcpu ' + case['cpu'], '\torg %d' % start, 'buf:\t%s %d' % (case['kw'], case['n']), 'after:']
+    core.fresh()
+    core.put('a.asm', '\n'.join(lines) + '\n')
+    o = core.run('asl', ['-q', '-g', 'map', 'a.asm'])
+    d = ' / '.join(l.strip() for l in lines)
+    ck = core.crashkind(o)
+    sig = '%s/%s' % (case['cpu'], case['kw'])
+    if ck:
+        return core.R(False, ck, 'crash/resvn/' + ck, '%s on %s' % (ck, d))
+    if case['n'] < 0:
+        # (out-of-range arguments are warnings unless -WARNRANGES asks for errors: the statement must not pass silently)
+        if o.rc == 0 and b'> > >' not in o.err + o.out:
+            return core.R(False, 'accepted', 'resv/negative-accepted/' + sig, 'a reservation of %d elements is accepted without any message on %s' % (case['n'], d))
+        return core.R(True, 'resv-rejected', states=[sig + '/neg'])
+    if o.rc != 0:
+        return core.R(False, 'rejected', 'resv/rejected/' + sig, 'rc=%s %s on %s' % (o.rc, (o.out + o.err)[-150:].decode('latin-1'), d))
+    m = re.search(r'(?mi)^Symbols in Segment \S+\s*\n((?:.*\n)*)', (core.get('a.map') or b'').decode('latin-1'))
+    syms = dict((x.split()[0].lower(), x.split()) for x in (m.group(1) if m else '').split('\n') if len(x.split()) >= 3)
+    if 'after' not in syms:
+        return core.R(False, 'nomap', 'resv/no-symbol/' + sig, 'label after the reservation not in the MAP file on ' + d)
+    val = int(syms['after'][2], 16) if syms['after'][1].lower().startswith('int') else None
+    if val != start + case['n'] * case['unit']:
+        return core.R(False, 'layout-label', 'resv/size/' + sig, 'label after the reservation of %d elements is %s, model %x on %s' % (case['n'], syms['after'], start + case['n'] * case['unit'], d))
+    return core.R(True, 'resv-ok', states=['%s/%d' % (sig, case['n'])])
 
 
 def ev_resv(case):
@@ -476,7 +518,7 @@ def ev_resv(case):
 def describe(case):
     if case['k'] == 'batch':
         return [it['line'].strip()[:60] for it in case['items'][:4]]
-    if case['k'] in ('layout', 'resv'):
+    if case['k'] in ('layout', 'resv', 'resvn'):
         return case
     return case.get('line', '').strip()[:80]
 
@@ -486,6 +528,8 @@ def sigf(it):
 
 
 def evaluate(case):
+    if case['k'] == 'resvn':
+        return ev_resvn(case)
     if case['k'] == 'layout':
         return ev_layout(case)
     if case['k'] == 'resv':
